@@ -64,6 +64,15 @@ if tier == "quick":
         if b is None:
             rc = 2
         else:
+            # regression scenarios whose defect only shows with overflow checks on
+            r = subprocess.run([b, "regress", "--prop", prop, "--dir", f"{V}/regress"],
+                               stdout=subprocess.PIPE, stderr=subprocess.STDOUT, text=True)
+            for l in r.stdout.splitlines():
+                if l.startswith("VIOLATION") or l.startswith("  regression scenario"):
+                    print(l)
+            summary["simcheck_regress"] = {"exit": r.returncode, "result": (r.stdout.strip().splitlines() or [""])[-1]}
+            if r.returncode > rc:
+                rc = r.returncode
             run_batch(b, ["--tier", "quick", "--count", "2500", "--flavour", "simcheck"], "simcheck_overflow_and_debug_assertions")
     json.dump(summary, open(out, "w"), indent=1)
     sys.exit(rc)
